@@ -25,8 +25,10 @@ IsEvent(a) == l <= Len(Traces[tid].ev) /\ Ev.a = a /\ l' = l + 1 /\ UNCHANGED ti
 Silent == UNCHANGED <<tid, l>>
 Same == UNCHANGED vars
 
-ScnOf(h) == [k |-> h.k, kind |-> h.kind, max |-> h.max, size |-> h.size, lim |-> h.lim, lim2 |-> h.lim2,
-             members |-> [i \in DOMAIN h.members |-> Mem(h.members[i].size, h.members[i].folder)],
+ScnOf(h) == [k |-> h.k, kind |-> h.kind, max |-> h.max, size |-> h.size, via |-> h.via, lsize |-> h.lsize,
+             lim |-> h.lim, lim2 |-> h.lim2,
+             members |-> [i \in DOMAIN h.members |-> Mem(h.members[i].size, h.members[i].folder, h.members[i].name,
+                                                         h.members[i].type, h.members[i].target)],
              c |-> h.c, mag |-> h.mag, pos |-> h.pos, skib |-> h.skib]
 
 (* ---- read_file ---- *)
@@ -45,17 +47,22 @@ T_End7z == IsEvent("End") /\ SZ
               \/ (Ev.outcome # "TooLarge" /\ SZ_Finish /\ (Hdr.valid => Ev.outcome = "Ok" /\ Ev.results = 1))
 (* ---- members ---- *)
 \* (reading a kept member / decoding a wanted folder a second time is not forbidden)
+\* Ev.m is the DATA entry whose bytes are decompressed (identified by the archive's own entry object, never by
+\* name): it must be what a read of some pending entry yields
 T_Decompress == IsEvent("Decompress") /\ Ev.m \in Members
-                /\ (MB_Decompress(Ev.m) \/ (MB /\ Ev.m \in inmem /\ ~MustSkip(Size(Ev.m), scn.lim) /\ Same))
+                /\ \/ \E m \in Members : MB_Decompress(m) /\ DataOf(m) = Ev.m
+                   \/ (MB /\ Ev.m \in inmem /\ ~MustSkip(Size(Ev.m), scn.lim) /\ Same)
 T_Folder == IsEvent("DecompressFolder") /\ Ev.f \in Folders
             /\ (MB7_Folder(Ev.f) \/ (MB /\ FolderDone(Ev.f) /\ FolderWanted(Ev.f) /\ Same))
 \* a disk write: 7z -- the member must have been released to disk by the folder step;
 \* zip/tar -- only a member that passes the limit (writing kept members is not forbidden)
 T_Write == IsEvent("Write") /\ MB /\ Ev.m \in Members
            /\ (IF scn.kind = "7z" THEN Ev.m \in ondisk
-               ELSE ~MustSkip(Size(Ev.m), scn.lim) /\ Ev.m \in inmem)
+               ELSE IsData(Ev.m) /\ ~MustSkip(Size(Ev.m), scn.lim))
            /\ Same
-T_ExtractMember == IsEvent("Extract") /\ MB /\ Ev.m \in Members /\ MB_Extract(Ev.m) /\ Ev.n = Size(Ev.m)
+\* Ev.m is the entry whose BYTES reached the extractor (every entry is filled with its own byte value)
+T_ExtractMember == IsEvent("Extract") /\ MB /\ Ev.m \in Members /\ Ev.n = Size(Ev.m)
+                   /\ \E m \in Members : io.got[m] = Ev.m /\ MB_Extract(m)
 T_EndMembers == IsEvent("End") /\ MB /\ Ev.outcome = "Ok" /\ MB_Finish
 (* ---- cost ---- *)
 ObservedExceeds(e) == e.peak > BoundKiB(scn.skib) \/ e.outcome \in {"MemoryError", "CpuBudget", "Killed"}
@@ -67,11 +74,12 @@ T_Cost == IsEvent("Cost") /\ CB /\ pc = "done"
 
 \* how the size is obtained is not prescribed (Path.stat, os.path.getsize, fstat ...): the Stat event is optional
 RF_NoStat == /\ RF /\ pc = "start" /\ scn.max > 0 /\ pc' = "guard"
-             /\ UNCHANGED <<scn, hist, st, inmem, ondisk, outcome, work, cur>>
+             /\ UNCHANGED <<scn, hist, st, inmem, ondisk, io, outcome, work, cur>>
 
 SilentStep == /\ Silent
               /\ \/ RF_Disabled \/ RF_Pass \/ SZ_Pass \/ RF_NoStat
-                 \/ \E m \in Members : MB_Skip(m) \/ MB_Drop(m) \/ MB7_Filter(m) \/ MB7_Read(m)
+                 \/ \E m \in Members : MB_Skip(m) \/ MB_Drop(m) \/ MB7_Filter(m)
+                 \/ \E m \in Members : \E e \in Members : MB7_Read(m, e)
                  \/ MB7_Filtered \/ MB7_Unpacked
                  \/ CB_OdsCell \/ CB_OdsRowEnd \/ CB_OdsSheetEnd \/ CB_Expand \/ CB_Finish
 
